@@ -67,7 +67,7 @@ structure Var where
   ty : VType
   lb : Option Int
   ub : Option Int
-  deriving Repr
+  deriving Repr, DecidableEq
 
 inductive Op where
   | le | eq | ge
@@ -78,7 +78,7 @@ structure Constr where
   op : Op
   rhs : Int
   terms : List (Int × VarId)
-  deriving Repr
+  deriving Repr, DecidableEq
 
 /-- Objective / utility terms; `none` is a constant term. -/
 abbrev UTerms := List (Int × Option VarId)
